@@ -59,8 +59,13 @@ Definition log_opts (start_ns end_ns : Z) : bytes * bytes := (dec (start_ns / 10
 (** * Reading: every selected container's stream is decoded (C03) and the streams are merged (C04) *)
 Record src := { s_idx : nat; s_recs : list frec; s_err : bool; s_hit : bool }.
 
+(** otelstorage.Timestamp is a uint64 holding time.Time.UnixNano(): instants outside 1970..2262 wrap (the zero time
+    0001-01-01T00:00:00Z, which a daemon reports for a message without recorded time, becomes a large unsigned value and
+    therefore sorts after every ordinary record) *)
+Definition parse_ts_u64 (s : bytes) : option Z := option_map (fun z => z mod 18446744073709551616) (parse_ts s).
+
 Definition decode_ctr (c : container) : list frec * bool :=
-  let '(rs, e) := decode parse_ts (c_reader c) in (rs, match e with CleanEnd => false | _ => true end).
+  let '(rs, e) := decode parse_ts_u64 (c_reader c) in (rs, match e with CleanEnd => false | _ => true end).
 
 Definition elemD := (nat * frec)%type.
 Definition elessD (a b : elemD) : bool := f_ts (snd a) <? f_ts (snd b).
